@@ -277,6 +277,8 @@ pub fn print_stmt(s: &Stmt) -> String {
             }
         }
         Stmt::Restore => "RESTORE".into(),
+        // `DIM X` without subscripts is legal and does nothing (it declares nothing: a later read of X still warns)
+        Stmt::Dim(n, idx) if idx.is_empty() => format!("DIM {}", n),
         Stmt::Dim(n, idx) => format!("DIM {}({})", n, idx.iter().map(print_expr).collect::<Vec<_>>().join(", ")),
         Stmt::Def { name, params, body } => {
             // "FNC" is spelled "FN C" half of the time by the caller via name; keep canonical here
